@@ -5,7 +5,7 @@
 -/
 import HotXL.Model.Basic
 import HotXL.Model.PyNum
-import HotXL.Generated.Tables
+import HotXL.Generated.Cell
 
 namespace HotXL.Cell
 
